@@ -28,6 +28,8 @@ func genSrvCfg(r *Rand, c *Case, tier string) {
 	c.Cfg["dotu_other"] = int64(r.Pick(0, 0, 1))
 	// ... or give all its late answers from one event-loop goroutine of its own
 	c.Cfg["dispatcher"] = int64(r.Pick(0, 0, 1))
+	// the transport may report the same remote address for every connection (net.Pipe, unix sockets)
+	c.Cfg["sameaddr"] = int64(r.Pick(0, 0, 1))
 }
 
 func effMsize(c *Case) int {
